@@ -18,6 +18,9 @@ OpSpace ==
   \cup (IF "event" \in Kinds /\ Room(1) THEN {Op("event", 0, 0, 0, Z)} ELSE {})
   \cup (IF "succeed" \in Kinds THEN {Op("succeed", e, 0, 0, Z) : e \in {x \in UserEvs : evs[x].kind = "ev"}} ELSE {})
   \cup (IF "fail" \in Kinds THEN {Op("fail", e, 0, 0, Z) : e \in {x \in UserEvs : evs[x].kind = "ev"}} ELSE {})
+  \cup (IF "trigger" \in Kinds
+        THEN {o \in {Op("trigger", e, b, 0, Z) : e \in {x \in UserEvs : evs[x].kind = "ev"}, b \in {x \in UserEvs : evs[x].st # "pending"}} : o.a # o.b}
+        ELSE {})
   \cup (IF "spawn" \in Kinds /\ Len(procs) < MaxProc /\ Room(2) THEN {Op("spawn", 0, 0, 0, Z)} ELSE {})
   \cup (IF "spawnnp" \in Kinds /\ Len(procs) < MaxProc /\ Room(2) THEN {Op("spawn", 0, 1, 0, Z)} ELSE {})
   \cup (IF "interrupt" \in Kinds /\ Room(1) THEN {Op("interrupt", q, 0, 0, Z) : q \in 1..Len(procs)} ELSE {})
@@ -27,7 +30,7 @@ OpSpace ==
   \cup (IF "conddup" \in Kinds /\ Room(1) THEN {Op("cond", a, 1, 0, <<x, x>>) : a \in {0, 1}, x \in UserEvs}
                                                 \cup {Op("cond", a, 1, 0, <<x, y, x>>) : a \in {0, 1}, x \in UserEvs, y \in UserEvs} ELSE {})
   \cup (IF "condnoprobe" \in Kinds /\ Room(1) THEN {Op("cond", a, 0, 0, s) : a \in {0, 1}, s \in KidSeqs} ELSE {})
-  \cup (IF "baddelay" \in Kinds THEN {Op("baddelay", 0, 0, 0, Z)} ELSE {})
+  \cup (IF "baddelay" \in Kinds THEN {Op("baddelay", 0, 0, 0, Z), Op("baddelay", 0, 1, 0, Z)} ELSE {})
   \cup (IF "condforeign" \in Kinds THEN {Op("condforeign", 0, 0, 0, Z)} ELSE {})
 ProcOps ==
   (IF procs[P].n < MaxOps THEN
